@@ -5,6 +5,10 @@ type nat =
 | O
 | S of nat
 
+type ('a, 'b) sum =
+| Inl of 'a
+| Inr of 'b
+
 val fst : ('a1 * 'a2) -> 'a1
 
 val snd : ('a1 * 'a2) -> 'a2
@@ -44,6 +48,13 @@ type z =
 | Zpos of positive
 | Zneg of positive
 
+val eqb0 : bool -> bool -> bool
+
+module Nat :
+ sig
+  val eqb : nat -> nat -> bool
+ end
+
 module Pos :
  sig
   type mask =
@@ -61,6 +72,8 @@ module Coq_Pos :
   val add_carry : positive -> positive -> positive
 
   val pred_double : positive -> positive
+
+  val pred_N : positive -> n
 
   type mask = Pos.mask =
   | IsNul
@@ -97,7 +110,13 @@ module Coq_Pos :
 
   val coq_land : positive -> positive -> n
 
+  val ldiff : positive -> positive -> n
+
+  val coq_lxor : positive -> positive -> n
+
   val shiftl : positive -> n -> positive
+
+  val testbit : positive -> n -> bool
 
   val iter_op : ('a1 -> 'a1 -> 'a1) -> positive -> 'a1 -> 'a1
 
@@ -111,6 +130,8 @@ module N :
   val succ_double : n -> n
 
   val double : n -> n
+
+  val pred : n -> n
 
   val succ_pos : n -> positive
 
@@ -128,6 +149,10 @@ module N :
 
   val ltb : n -> n -> bool
 
+  val min : n -> n -> n
+
+  val max : n -> n -> n
+
   val div2 : n -> n
 
   val pow : n -> n -> n
@@ -142,22 +167,52 @@ module N :
 
   val coq_land : n -> n -> n
 
+  val ldiff : n -> n -> n
+
+  val coq_lxor : n -> n -> n
+
   val shiftl : n -> n -> n
 
   val shiftr : n -> n -> n
 
+  val testbit : n -> n -> bool
+
   val to_nat : n -> nat
 
   val of_nat : nat -> n
+
+  val iter : n -> ('a1 -> 'a1) -> 'a1 -> 'a1
+
+  val ones : n -> n
  end
+
+val hd : 'a1 -> 'a1 list -> 'a1
+
+val hd_error : 'a1 list -> 'a1 option
+
+val tl : 'a1 list -> 'a1 list
 
 val nth : nat -> 'a1 list -> 'a1 -> 'a1
 
 val nth_error : 'a1 list -> nat -> 'a1 option
 
+val last : 'a1 list -> 'a1 -> 'a1
+
+val rev : 'a1 list -> 'a1 list
+
+val concat : 'a1 list list -> 'a1 list
+
 val map : ('a1 -> 'a2) -> 'a1 list -> 'a2 list
 
+val fold_left : ('a1 -> 'a2 -> 'a1) -> 'a2 list -> 'a1 -> 'a1
+
+val fold_right : ('a2 -> 'a1 -> 'a1) -> 'a1 -> 'a2 list -> 'a1
+
+val existsb : ('a1 -> bool) -> 'a1 list -> bool
+
 val forallb : ('a1 -> bool) -> 'a1 list -> bool
+
+val filter : ('a1 -> bool) -> 'a1 list -> 'a1 list
 
 val firstn : nat -> 'a1 list -> 'a1 list
 
@@ -191,9 +246,15 @@ module Z :
 
   val ltb : z -> z -> bool
 
+  val eqb : z -> z -> bool
+
   val abs_N : z -> n
 
+  val to_nat : z -> nat
+
   val to_N : z -> n
+
+  val of_nat : nat -> z
 
   val of_N : n -> z
 
@@ -369,6 +430,16 @@ val eaw_mask : n
 
 val cw_shift : n
 
+val ascii_limit : n
+
+val ctype_space : n
+
+val ptype_Ascii : n
+
+val ptype_Cased : n
+
+val ptype_Alphabetic : n
+
 val property_enum_ctype : n
 
 val property_enum_ptype : n
@@ -461,6 +532,8 @@ val rec_cwidth : raw_record -> z
 
 val case_mapping : n -> z option
 
+val has : n -> n -> bool
+
 val add_delta : n -> z -> n
 
 val tocasefold : ucd_table -> n -> n option
@@ -482,3 +555,723 @@ val rec_all_of : raw_record -> n -> n -> bool
 val rec_any_of : raw_record -> n -> n -> bool
 
 val rec_none_of : raw_record -> n -> n -> bool
+
+type rune_set = { ivs : (n * n) list; ascii : n }
+
+val rs_empty : rune_set
+
+val max_rune : n
+
+val bit_range : n -> n -> n
+
+type rs_result =
+| RsOk of rune_set
+| RsBadRange
+| RsIndex
+
+val push_range : rune_set -> n -> n -> rs_result
+
+val push_rune : rune_set -> n -> rune_set
+
+val rs_bind : rs_result -> (rune_set -> rs_result) -> rs_result
+
+val push_uniform_casefolded_range :
+  ucd_table -> rune_set -> n -> n -> n -> rs_result
+
+type pcr_state = { pcr_p : n; pcr_r1 : n; pcr_r2 : n; pcr_rn : n;
+                   pcr_set : rs_result }
+
+val pcr_step : ucd_table -> n -> pcr_state -> pcr_state
+
+val push_casefolded_range : ucd_table -> rune_set -> n -> n -> rs_result
+
+val iv_ltb : (n * n) -> (n * n) -> bool
+
+val iv_insert : (n * n) -> (n * n) list -> (n * n) list
+
+val iv_sort : (n * n) list -> (n * n) list
+
+val optimize_loop : (n * n) list -> (n * n) list -> (n * n) list
+
+val sort_and_optimize : rune_set -> rune_set
+
+val negate_gaps : (n * n) list -> (n * n) list
+
+val negate : rune_set -> rune_set
+
+val lower_bound_snd : (n * n) list -> n -> (n * n) option
+
+val contains : rune_set -> n -> bool
+
+type name = n list
+
+type class_kind =
+| CkAll
+| CkAny
+| CkNone
+
+type symk =
+| SkAll
+| SkAny
+| SkHead
+| SkTail
+
+type sinstr =
+| IJump of z
+| IChoice of z * bool
+| ICommit of z
+| ICommitBack of z
+| ICommitPartial of z
+| IAccept of n
+| ICall of z * n
+| IRet
+| IFail of n
+| IRecoverPush of z
+| IRecoverPop
+| IRecoverResp of n
+| IReportPush of (n * n)
+| IReportPop
+| IPredicate of (n * n)
+| IAction of n
+| ICaptureStart
+| ICaptureEnd of n
+| IConditionPop
+| ISymbolEnd
+| ISymbolPop
+| IMatchAny of n
+| IMatchEol
+| IMatchOctet of n
+| IMatchSet of rune_set
+| IMatchClass of class_kind * n * n
+| IMatch of n list
+| IMatchCf of n list
+| IConditionTest of name * bool
+| IConditionPush of name * bool
+| ISymbolExists of name * bool
+| ISymbolMatch of symk * bool * name * n
+| ISymbolStart of name
+| ISymbolPush of n * name
+| IRaise of name * bool
+
+type tinstr =
+| TI of sinstr
+| TCall of nat * n * n
+| TRecRule of nat * n
+
+val len : 'a1 list -> z
+
+val op_jump : n
+
+val op_choice : n
+
+val op_commit : n
+
+val op_commit_back : n
+
+val op_commit_partial : n
+
+val op_accept : n
+
+val op_call : n
+
+val op_ret : n
+
+val op_fail : n
+
+val op_recover_push : n
+
+val op_recover_pop : n
+
+val op_recover_resp : n
+
+val op_report_push : n
+
+val op_report_pop : n
+
+val op_predicate : n
+
+val op_action : n
+
+val op_capture_start : n
+
+val op_capture_end : n
+
+val op_condition_pop : n
+
+val op_symbol_end : n
+
+val op_symbol_pop : n
+
+val op_match_any : n
+
+val op_match_eol : n
+
+val op_match_octet : n
+
+val op_match_set : n
+
+val op_match_all_of : n
+
+val op_match_any_of : n
+
+val op_match_none_of : n
+
+val op_match : n
+
+val op_match_cf : n
+
+val op_condition_test : n
+
+val op_condition_push : n
+
+val op_symbol_exists : n
+
+val op_symbol_all : n
+
+val op_symbol_all_cf : n
+
+val op_symbol_any : n
+
+val op_symbol_any_cf : n
+
+val op_symbol_head : n
+
+val op_symbol_head_cf : n
+
+val op_symbol_tail : n
+
+val op_symbol_tail_cf : n
+
+val op_symbol_start : n
+
+val op_symbol_push : n
+
+val op_raise : n
+
+val dir_caseless : n
+
+val dir_eps : n
+
+val dir_lexeme : n
+
+val dir_noskip : n
+
+val dir_preskip : n
+
+val dir_postskip : n
+
+val resp_halt : n
+
+val resp_resume : n
+
+val resp_accept : n
+
+val resp_backtrack : n
+
+val resp_rethrow : n
+
+val inline_max_instructions : n
+
+val inline_max_objects : n
+
+val max_eol_units : n
+
+type expr =
+| EStr of n list
+| EAny
+| EEps
+| ENop
+| EEoi
+| EEol
+| ECut
+| EAccept
+| EClass of class_kind * n * n
+| ERange of n * n
+| ERef of nat
+| EPrec of nat * n
+| ESeq of expr * expr
+| EAlt of expr * expr
+| EStar of expr
+| EPlus of expr
+| EOpt of expr
+| EList of expr * expr
+| ENot of expr
+| EAnd of expr
+| ERep of n * n * expr
+| EDir of n * n * n * expr
+| ECased of expr
+| ECaseless of expr
+| ELexeme of expr
+| ENoskip of expr
+| ESkip of expr
+| EAct of n * expr
+| ECap of n * expr
+| ESym of name * expr
+| EBlock of expr
+| ELocal of expr
+| ELocalTo of name * expr
+| ECond of bool * name * expr
+| EWhen of bool * name
+| EExists of bool * name
+| EMatchSym of symk * name * n
+| ECutBefore of expr
+| ECutAfter of expr
+| EExpect of expr * name
+| EExpectRule of expr * name * nat
+| EExpectExpr of expr * name * expr
+| ERaise of name
+| ERaiseRule of name * nat
+| ERaiseExpr of name * expr
+| ERecRule of nat * expr
+| ERecExpr of expr * expr
+| EReport of (n * n) * expr
+| ERespond of n * expr
+| EResp of n
+| EPred of (n * n)
+
+val c : n
+
+val e : n
+
+val l : n
+
+val nn : n
+
+val p : n
+
+val q : n
+
+val nand : n -> n -> n
+
+val apply_dir : n -> n -> n -> expr -> expr
+
+val matches_eps : expr -> expr
+
+val relays_eps : expr -> expr
+
+val skip_after : expr -> expr
+
+val skip_before : expr -> expr
+
+val desugar : expr -> expr
+
+type ruledef =
+| RExpr of expr
+| RCopy of nat
+
+type grammar = { g_nrules : nat; g_defs : (nat * ruledef) list;
+                 g_start : nat; g_space : expr option }
+
+type pexp =
+| PEmpty
+| PInstr of sinstr
+| PSeq of pexp * pexp
+| PAlt of pexp * pexp
+| PStar of pexp
+| PNot of pexp
+| PAnd of pexp
+| PEoi
+| PRep of n * n * pexp
+| PCall of nat * n * n
+| PInline of nat * pexp
+| PSkip of pexp
+| PWrap of sinstr * pexp * sinstr
+| PRecRule of nat * n * pexp
+| PRecExpr of pexp * pexp
+| PRaiseRule of name * nat * n
+| PRaiseExpr of name * pexp
+
+type 'a err =
+| OK of 'a
+| Err of n
+
+val e_bad_range : n
+
+val e_nested_space : n
+
+val e_table : n
+
+val e_limit : n
+
+val e_bad_string : n
+
+val bind2 : ('a1 * 'a2) err -> ('a1 -> 'a2 -> 'a3 err) -> 'a3 err
+
+type est = { modes : n list; entry : n }
+
+val top : est -> n
+
+val set_top : n -> est -> est
+
+val push_mode : n -> est -> est
+
+val pop_mode : est -> est
+
+type spacefn = est -> (pexp * est) err
+
+val do_skip : spacefn -> est -> (pexp * est) err
+
+val skip : spacefn -> n -> n -> est -> (pexp * est) err
+
+val dpsh : n -> n -> est -> est
+
+val dpop : spacefn -> n -> est -> (pexp * est) err
+
+type rinfo = { r_body : pexp; r_len : n; r_objects : n; r_has_callees : 
+               bool; r_entry : n; r_defined : bool }
+
+val rinfo_empty : rinfo
+
+val can_inline : rinfo -> n -> bool -> bool
+
+val seqp : pexp -> pexp -> pexp
+
+val map_opt : ('a1 -> 'a2 option) -> 'a1 list -> 'a2 list option
+
+val utf8_tocasefold : ucd_table -> n list -> n list option
+
+val encoding : nat option -> nat -> bool
+
+val elab_str : ucd_table -> spacefn -> n list -> est -> (pexp * est) err
+
+val elab_range : ucd_table -> spacefn -> n -> n -> est -> (pexp * est) err
+
+val elab_call :
+  (nat -> rinfo) -> nat option -> spacefn -> nat -> n -> est -> (pexp * est)
+  err
+
+val elab :
+  ucd_table -> (nat -> rinfo) -> nat option -> spacefn -> expr -> est ->
+  (pexp * est) err
+
+val no_space : spacefn
+
+val rep_calls : nat -> z -> tinstr list
+
+val rep_opts : nat -> z -> z -> tinstr list
+
+val cg : pexp -> tinstr list
+
+val is_object : tinstr -> bool
+
+val is_callee : tinstr -> bool
+
+val rinfo_of : pexp -> n -> rinfo
+
+type rtable = (nat * rinfo) list
+
+val rt_get : rtable -> nat -> rinfo
+
+val rt_set : rtable -> nat -> rinfo -> rtable
+
+val default_space_expr : expr
+
+val spacefn_for : ucd_table -> expr -> rtable -> nat option -> spacefn
+
+val final_entry : est -> n
+
+val compile_rule : ucd_table -> expr -> rtable -> nat -> ruledef -> rinfo err
+
+val compile_defs :
+  ucd_table -> expr -> rtable -> (nat * ruledef) list -> rtable err
+
+val callees_of : tinstr list -> z -> ((nat * z) * bool) list
+
+val lr_found : nat -> (nat * bool) list -> bool
+
+type lstate = { l_code : tinstr list; l_addrs : (nat * z) list;
+                l_lrec : nat list; l_halt : z option;
+                l_work : ((nat * bool) list * nat) list }
+
+val assoc_find : (nat * z) list -> nat -> z option
+
+val expand_callees :
+  ((nat * z) * bool) list -> (nat * bool) list -> nat list -> nat
+  list * ((nat * bool) list * nat) list
+
+val link_step : rtable -> lstate -> lstate
+
+val link_loop : nat -> rtable -> lstate -> lstate option
+
+val is_ret : tinstr option -> bool
+
+val resolve_code : lstate -> tinstr list -> z -> z -> sinstr list err
+
+val total_callees : rtable -> nat
+
+val start : ucd_table -> expr -> rtable -> nat -> sinstr list err
+
+val compile : ucd_table -> grammar -> sinstr list err
+
+type ninstr = { n_op : n; n_imm8 : n; n_imm16 : n; n_off : z }
+
+type program = { p_code : ninstr list; p_data : n list; p_uniforms : 
+                 n list; p_runesets : rune_set list;
+                 p_handlers : (n * n) list; p_predicates : (n * n) list;
+                 p_actions : n list; p_captures : n list }
+
+val empty_program : program
+
+val lenN : 'a1 list -> n
+
+val b2n : bool -> n
+
+val emit : program -> ninstr -> program
+
+val plain : program -> n -> n -> n -> z -> program
+
+val with_str : program -> n -> n -> n list -> program
+
+val sym_op : symk -> bool -> n
+
+val lower_one : program -> sinstr -> program
+
+val lower : sinstr list -> program
+
+type rkind =
+| RAct of n
+| RCap of n * n * n
+
+type response = { r_depth : n; r_kind : rkind }
+
+type symtab = (name * n list list) list
+
+type frame =
+| FBack of n option * n * n * bool * z
+| FCall of z
+| FCapture of n
+| FCond of name * bool
+| FLr of n * n option * n * z * z * n * response list
+| FRaise of name * n * n * (n * n) option * z
+| FRecover of z option
+| FReport of (n * n) option
+| FSymbol of name * n
+| FSymtab of symtab
+
+type event =
+| EvAction of n * n
+| EvCapture of n * n * n * n * n list
+| EvPred of (n * n) * n
+| EvHandler of (n * n) * name * n * n * n
+| EvDrain of n
+| EvPoll of n
+
+type mstate = { pc : z; sr : n; mr : n; rc : n; cd : n; cic : n; cutf : 
+                bool; accf : bool; rid : n; rinh : bool; eh : (n * n) option;
+                rh : z option; rr : n; frames : frame list;
+                resp : response list; buf : n list; pending : n list list;
+                alive : bool; interactive : bool; conds : name list;
+                syms : symtab; foldcache : (n * n list) list; success : 
+                bool; fmode : n; log : event list }
+
+type stuck =
+| BadStack
+| BadVariant
+| BadOpcode
+| Terminate
+| OutOfRange
+| BadIndex
+
+type result =
+| Running of mstate
+| Done of bool * mstate
+| Stuck of stuck * mstate
+
+type callbacks = { cb_pred : ((n * n) -> n -> bool);
+                   cb_handler : ((n * n) -> name -> n -> n -> n -> n) }
+
+val upd_pc : z -> mstate -> mstate
+
+val upd_sr : n -> mstate -> mstate
+
+val upd_mr : n -> mstate -> mstate
+
+val upd_rc : n -> mstate -> mstate
+
+val upd_cd : n -> mstate -> mstate
+
+val upd_ci : n -> bool -> bool -> mstate -> mstate
+
+val upd_ri : n -> bool -> mstate -> mstate
+
+val upd_eh : (n * n) option -> mstate -> mstate
+
+val upd_rh : z option -> mstate -> mstate
+
+val upd_rr : n -> mstate -> mstate
+
+val upd_frames : frame list -> mstate -> mstate
+
+val upd_resp : response list -> mstate -> mstate
+
+val upd_src : n list -> n list list -> bool -> mstate -> mstate
+
+val upd_conds : name list -> mstate -> mstate
+
+val upd_syms : symtab -> mstate -> mstate
+
+val upd_cache : (n * n list) list -> mstate -> mstate
+
+val upd_success : bool -> mstate -> mstate
+
+val upd_fmode : n -> mstate -> mstate
+
+val add_log : event -> mstate -> mstate
+
+val lenN0 : 'a1 list -> n
+
+val firstnN : n -> 'a1 list -> 'a1 list
+
+val skipnN : n -> 'a1 list -> 'a1 list
+
+val name_eqb : name -> name -> bool
+
+val has_cond : name list -> name -> bool
+
+val remove_cond : name list -> name -> name list
+
+val set_cond : name list -> name -> bool -> name list
+
+val get_symbols : symtab -> name -> n list list
+
+val has_symbol : symtab -> name -> bool
+
+val add_symbol : symtab -> name -> n list -> symtab
+
+val erase_symbol : symtab -> name -> symtab
+
+val poll : mstate -> mstate
+
+val fill_loop : nat -> n -> mstate -> mstate
+
+val fill_buffer : n -> n -> mstate -> bool * mstate
+
+val available_loop : nat -> n -> n -> n -> mstate -> bool * mstate
+
+val available : n -> n -> n -> mstate -> bool * mstate
+
+val subject_from : n -> mstate -> n list
+
+val m_any : n -> mstate -> bool * mstate
+
+val utf8_match_eol : n list -> n
+
+val m_eol : mstate -> bool * mstate
+
+val m_octet : n -> mstate -> bool * mstate
+
+val m_rune :
+  ucd_table -> (n -> bool option) -> mstate -> (result, bool * mstate) sum
+
+val class_test : ucd_table -> class_kind -> n -> n -> n -> bool option
+
+val list_eqb : n list -> n list -> bool
+
+val compare_at : n -> n -> n list -> mstate -> bool
+
+val cache_get : (n * n list) list -> n -> n list option
+
+val cache_set : (n * n list) list -> n -> n list -> (n * n list) list
+
+val casefold_compare_at :
+  ucd_table -> n -> n -> n list -> mstate -> (bool * mstate) option
+
+val m_seq_at :
+  ucd_table -> bool -> n list -> n -> mstate -> (result, n option * mstate)
+  sum
+
+val m_seq :
+  ucd_table -> bool -> n list -> mstate -> (result, bool * mstate) sum
+
+val sym_mod : ucd_table -> bool -> n list -> n list option
+
+val m_sym_all :
+  ucd_table -> bool -> n list list -> n -> mstate -> (result, n
+  option * mstate) sum
+
+val m_sym_any :
+  ucd_table -> bool -> n list list -> n -> mstate -> (result, n
+  option * mstate) sum
+
+val m_symbol :
+  ucd_table -> symk -> bool -> name -> n -> mstate -> (result, bool * mstate)
+  sum
+
+val pop_responses_after : n -> mstate -> mstate
+
+val restore_responses_after : n -> response list -> mstate -> mstate
+
+val push_response : response -> mstate -> mstate
+
+val run_responses : n list -> response list -> mstate -> mstate option
+
+val do_accept : mstate -> result
+
+val tombstone : n -> frame -> frame
+
+val drain : mstate -> mstate
+
+val subject_ok : mstate -> bool
+
+val accept_or_drain_if_deferred : mstate -> result
+
+val final_accept : mstate -> result
+
+val is_ws : n -> bool
+
+val find_ws : n list -> nat option
+
+val default_recovery_loop : nat -> n -> mstate -> n * mstate
+
+val match_default_recovery : mstate -> mstate
+
+val rESUME : n
+
+val aCCEPT : n
+
+val bACKTRACK : n
+
+val rETHROW : n
+
+val hALT : n
+
+val next_report : frame list -> ((n * n) option * frame list) option
+
+val handler_chain :
+  callbacks -> nat -> (n * n) option -> frame list -> name -> n -> n -> n ->
+  mstate -> n * mstate
+
+val return_from_raise :
+  callbacks -> name -> n -> n -> (n * n) option -> z -> mstate -> (result,
+  n * mstate) sum
+
+val fail_one : callbacks -> mstate -> (result, n * mstate) sum
+
+val start_fail : n -> mstate -> result
+
+val unwind : callbacks -> nat -> mstate -> result
+
+val fail_step : callbacks -> mstate -> result
+
+type lrsearch =
+| LrFound of frame
+| LrNone
+
+val find_memo : frame list -> n -> z -> lrsearch
+
+val call_into : n -> z -> mstate -> result
+
+val do_ret : callbacks -> mstate -> result
+
+val after_match : (bool * mstate) -> result
+
+val after_match' : (result, bool * mstate) sum -> result
+
+val exec : ucd_table -> callbacks -> sinstr -> mstate -> result
+
+val fetch : sinstr list -> z -> sinstr option
+
+val step : ucd_table -> callbacks -> sinstr list -> mstate -> result
+
+val init_state :
+  n list -> n list list -> bool -> name list -> symtab -> mstate
